@@ -90,8 +90,8 @@ class SemOracle:
         vs = self._check(root_ir, new_ir, op_name)
         self.seen[id(new_ir)] = (new_ir, {(v["prop"], v["sig"]) for v in vs})
         if in_ir is not None and id(in_ir) in self.seen:
-            old = self.seen[id(in_ir)][1]
-            kept = [v for v in vs if (v["prop"], v["sig"]) not in old]
+            old = {sg for _, sg in self.seen[id(in_ir)][1]}
+            kept = [v for v in vs if v["sig"] not in old]
             if len(kept) != len(vs):
                 self.probes.hit("sem_inherited_violation", len(vs) - len(kept))
             return kept
